@@ -84,6 +84,22 @@ func buildC08(tier string, seed int64) *Family {
 	add("number(//a) + number(//b)")
 	add("count(a | @a)")
 	add("count(a) + count(@*) * 2")
+	// operand independence: an operand whose path carries a predicate must not move the
+	// context node seen by the operands evaluated after it
+	filt := []string{"count(*[1])", "count(a[@a])", "count(*[. = 1])", "number(*[2])", "string-length(*[1])", "count(*[a])", "count(//a[1])", "number(*[last()])", "count(following::*)", "count(preceding::a)", "count(a/following::*)"}
+	plain := []string{"count(*)", "number(a)", "count(@*)", "string-length(.)"}
+	for i, f := range filt {
+		for j, q := range plain {
+			op := bin[(i+j)%len(bin)]
+			add(f + " " + op + " " + q)
+			if (i+j)%2 == 0 {
+				add(q + " " + op + " " + f)
+				add("floor(" + f + ") + ceiling(" + q + ")")
+			}
+		}
+	}
+	add("count(*[1]) + count(*[2]) + count(*)")
+	add("-count(*[1]) + count(*)")
 	add("string-length('#S1')")
 	add("string-length(concat(a, '#S1'))")
 	add("string-length(string(a))")
